@@ -423,8 +423,55 @@ pub fn builder_module(raw: &[u8; RAW]) -> u32 {
     if fresh.verif_next_id() != 1 || fresh.id() != 1 || fresh.id() != 2 {
         return E_ID_NOT_FRESH;
     }
-    core::mem::forget(b2);
     core::mem::forget(fresh);
+    // the continued builder writes its own next id over the bound it started from
+    let expect = b2.verif_next_id();
+    let m2 = b2.module();
+    let ok = match m2.header {
+        Some(ref h) => h.bound == expect && (!with_version || h.version() == (raw[1], raw[2])),
+        None => false,
+    };
+    core::mem::forget(m2);
+    if !ok {
+        return E_BOUND;
+    }
+    0
+}
+
+pub const E_IDENTITY: u32 = 420;
+
+/// `Instruction::is_type_identical` (C13: "the same opcode and operands") on two declarations drawn from
+/// struct / function types with 0..=2 id operands each and arbitrary result ids.
+/// raw: [opA, nA, a0, a1, ridA, opB, nB, b0, b1, ridB, ..]
+pub fn type_identical(raw: &[u8; RAW]) -> u32 {
+    fn mk(op: u8, n: u8, x0: u8, x1: u8, rid: u8) -> dr::Instruction {
+        let opcode = if op % 2 == 0 { spirv::Op::TypeStruct } else { spirv::Op::TypeFunction };
+        let mut ops = Vec::new();
+        if n % 3 >= 1 {
+            ops.push(dr::Operand::IdRef((x0 % 4) as u32));
+        }
+        if n % 3 >= 2 {
+            ops.push(dr::Operand::IdRef((x1 % 4) as u32));
+        }
+        dr::Instruction::new(opcode, None, Some(rid as u32), ops)
+    }
+    let a = mk(raw[0], raw[1], raw[2], raw[3], raw[4]);
+    let b = mk(raw[5], raw[6], raw[7], raw[8], raw[9]);
+    let (na, nb) = (raw[1] % 3, raw[6] % 3);
+    let mut same = raw[0] % 2 == raw[5] % 2 && na == nb;
+    if same && na >= 1 && raw[2] % 4 != raw[7] % 4 {
+        same = false;
+    }
+    if same && na >= 2 && raw[3] % 4 != raw[8] % 4 {
+        same = false;
+    }
+    let got = a.is_type_identical(&b);
+    let sym_ = b.is_type_identical(&a);
+    core::mem::forget(a);
+    core::mem::forget(b);
+    if got != same || sym_ != same {
+        return E_IDENTITY;
+    }
     0
 }
 
